@@ -87,6 +87,9 @@ def register(R):
                  ("no-task-is-started-for-an-empty-queue", f"implies(len({cq}) == 0, isnone({cs}) and ghost.tasks_started == old(ghost.tasks_started))", "C16"),
                  ("queue-untouched", f"{cq} == old({cq})", "C16")],
         modifies=[cs, "ghost.tasks_started"],
+        env={"call_hints": {"start_soon": [
+            ("the-client-is-marked-pending-BEFORE-its-task-is-started: a task group that starts tasks eagerly (asyncio.eager_task_factory) runs the "
+             "new task's mark_running() inside start_soon()", f"pre({cs}) == {PENDING}", "C16 C17")]}},
         tags="C16",
     )
     register_handler(R)
@@ -165,6 +168,8 @@ def register_handler(R):
                   "client_data_cache.entry._ClientData__state", "client_data_cache.entry._datagram_queue.items", "client_data_cache.entry._queue_condition.held"],
         env={"atomic_inv": [("A at every suspension point of the handler (no await between queueing a datagram for an idle client and starting its task)", A, "C16")],
              "rely_havoc": ["?client_data._datagram_queue.items", "?client_data._ClientData__state"],
-             "rely_inv": [A, f"implies(bound('client_data'), isnone({cs}) or {cs} == {PENDING} or {cs} == {RUNNING})"]},
+             "rely_inv": [A, f"implies(bound('client_data'), isnone({cs}) or {cs} == {PENDING} or {cs} == {RUNNING})"],
+             "call_hints": {"start_soon": [("the-client-is-marked-pending-BEFORE-its-task-is-started (eager task factories run the task inside start_soon())",
+                                            f"pre({cs}) == {PENDING}", "C16 C17")]}},
         tags="C16",
     )
